@@ -1,6 +1,6 @@
 (* C14 — Client-maintained referrers indexes lose no update under concurrency. *)
 From Oras Require Import Base.Prelude Model.Referrers Proofs.Referrers Model.Merge
-  Proofs.Merge Proofs.MergeLin Proofs.MergeThm.
+  Proofs.Merge Proofs.MergeLin Proofs.MergeThm Model.Delivery Proofs.Delivery.
 
 (* applyReferrerChanges (position map, tombstones, hint) = set semantics on the
    de-duplicated, non-empty old list; survivors keep their order, additions are
@@ -155,6 +155,52 @@ Theorem C14_tags_independent : forall sg tr S S',
 Proof. exact grun_project. Qed.
 Print Assumptions C14_tags_independent.
 
+(* two subject descriptors with the same digest (whatever their media type and size)
+   map to the same referrers tag, and the calls of their referrers act on the same
+   component (same Pool key, same Merge object, same registry tag) *)
+Theorem C14_tag_by_digest : forall a b,
+  s_digest a = s_digest b ->
+  tag_of a = tag_of b /\ forall sg S e, sstep sg S (a, e) = sstep sg S (b, e).
+Proof. exact tag_by_digest. Qed.
+Print Assumptions C14_tag_by_digest.
+
+(* ---- the delivery step at channel granularity (Model/Delivery.v): close of the
+   buffered-1 status channel / len(items)-1 blocking sends by the main caller, one
+   receive per waiter, in every interleaving ---- *)
+
+(* every member receives the batch result, nothing else, at most once; when nothing can
+   happen any more every member has received it *)
+Theorem C14_delivery_exactly_once : forall r ws tr d,
+  NoDup ws -> drun r (dinit ws) tr = Some d ->
+  (forall t x, In (t, x) (d_received d) -> In t ws /\ x = r) /\
+  NoDup (map fst (d_received d)) /\
+  (dstuck r d -> forall t, In t ws -> In (t, r) (d_received d)).
+Proof. exact delivery_exactly_once. Qed.
+Print Assumptions C14_delivery_exactly_once.
+
+(* late receivers: once the main caller has gone on to the swap on the error path, at most
+   one member has not received yet and its value sits in the buffer *)
+Theorem C14_delivery_late_receiver : forall r ws tr d,
+  NoDup ws -> drun r (dinit ws) tr = Some d -> d_main_done d = true -> is_ok r = false ->
+  (length (d_waiting d) <= 1)%nat /\ (d_waiting d <> [] -> d_buf d = Some r).
+Proof. exact late_receiver. Qed.
+Print Assumptions C14_delivery_late_receiver.
+
+Theorem C14_delivery_bounded : forall r ws tr d d',
+  DInv r ws d -> drun r d tr = Some d' -> (length tr + dmu d' <= dmu d)%nat.
+Proof. exact delivery_bounded. Qed.
+Print Assumptions C14_delivery_bounded.
+
+(* refinement of the delivery step: every maximal channel-level run hands out exactly what
+   the atomic EComplete of the Merge system writes into the members' program counters *)
+Theorem C14_delivery_refines_complete : forall s t r tr d,
+  InvS s -> pcs s t = Completing r ->
+  drun r (dinit (waiters s t)) tr = Some d -> dstuck r d ->
+  forall x, x <> t -> In x (batch s) ->
+    (forall rr, In (x, rr) (d_received d) <-> complete_pcs s t r x = Ret rr).
+Proof. exact delivery_refines_complete. Qed.
+Print Assumptions C14_delivery_refines_complete.
+
 (* ---- the hypotheses are satisfiable: concrete instances ---- *)
 Definition dA := mkDesc 1 7 0. Definition dB := mkDesc 2 0 3. Definition dC := mkDesc 3 0 0.
 
@@ -184,3 +230,15 @@ Proof.
   intros s H. vm_compute in H. injection H as <-. intro t.
   do 3 (destruct t as [|t]; [right; eexists; reflexivity|]). left. reflexivity.
 Qed.
+
+(* two waiters, error path: the second one receives after the main caller has left *)
+Example delivery_ex :
+  match drun RErr (dinit [1; 2]%nat) [DSend; DRecv 2; DSend; DFinish; DRecv 1]%nat with
+  | Some d => d_received d = [(1, RErr); (2, RErr)]%nat /\ d_waiting d = [] /\ d_main_done d = true
+  | None => False
+  end /\
+  match drun ROk (dinit [1; 2]%nat) [DClose; DFinish; DRecv 1; DRecv 2]%nat with
+  | Some d => d_received d = [(2, ROk); (1, ROk)]%nat
+  | None => False
+  end.
+Proof. vm_compute. repeat split. Qed.
